@@ -37,23 +37,17 @@ Proof. exact num_dict_bounds_sound. Qed.
 Theorem C05_page_bounds_sound_bytes : forall (sw : bool) (l : list bytes) (mn mx : bytes),
   page_bounds cmp_bytes (fun _ => false) sw l = Some (mn, mx) ->
   (forall v, In v l -> cmp_bytes mn v <= 0 /\ cmp_bytes v mx <= 0) /\ In mn l /\ In mx l.
-Proof.
-  intros sw l mn mx H. destruct (bytes_page_bounds_sound sw l mn mx H) as (W & I1 & I2).
-  split; [|auto]. intros v Hv. exact (W v Hv eq_refl).
-Qed.
+Proof. exact bytes_page_bounds_within. Qed.
 
 (** 128-bit big-endian (UUID): boundsBE128 compares two uint64 halves *)
 Theorem C05_page_bounds_sound_be128 : forall (l : list bytes) (mn mx : bytes),
   bounds_byte BBe128 l = Some (mn, mx) ->
   (forall v, In v l -> cmp_be128 mn v <= 0 /\ cmp_be128 v mx <= 0) /\ In mn l /\ In mx l.
-Proof.
-  intros l mn mx H. destruct (be128_page_bounds_sound l mn mx H) as (W & I1 & I2).
-  split; [|auto]. intros v Hv. exact (W v Hv eq_refl).
-Qed.
+Proof. exact be128_page_bounds_within. Qed.
 
 Theorem C05_page_bounds_none_iff_empty : forall (k : numkind) (l : list N),
   bounds_num k l = None <-> l = [].
-Proof. intros k l. apply page_bounds_none. Qed.
+Proof. exact num_page_bounds_none. Qed.
 
 Print Assumptions C05_page_bounds_sound.
 Print Assumptions C05_dict_page_bounds_sound.
@@ -103,7 +97,7 @@ Proof. exact bytes_chunk_stats_sound. Qed.
 Theorem C05_chunk_counts_exact : forall (k : numkind) ps,
   cs_num_values (chunk_num k ps) = sumZ (map (@pi_num_values N) ps) /\
   cs_null_count (chunk_num k ps) = sumZ (map (@pi_num_nulls N) ps).
-Proof. intros k ps. apply chunk_counts_exact. Qed.
+Proof. exact num_chunk_counts_exact. Qed.
 
 Print Assumptions C05_chunk_stats_sound.
 Print Assumptions C05_chunk_stats_sound_any_pages.
@@ -149,24 +143,14 @@ Theorem C05_counts_exact : forall (k : numkind) (pages : list (list (option N)))
   nth_error (ci_null_counts ci) i = Some (Z.of_nat (count_nulls vals)) /\
   exists flag, nth_error (ci_null_pages ci) i = Some flag /\
                (flag = true <-> Forall (fun o => o = None) vals).
-Proof.
-  intros k pages i vals H.
-  pose proof (map_nth_error (page_of_values (cmp_num k) (nan_num k) false) i pages H) as Hq.
-  destruct (index_counts_exact N 0%N (fun v => v) (fun v => v) (order_num k) _ _ _ Hq) as (H1 & H2 & _).
-  destruct (page_of_values_counts N (cmp_num k) (nan_num k) false vals) as (_ & E2 & E3).
-  cbv zeta. unfold index_num. rewrite H1, H2, E2. split; [reflexivity|].
-  eexists. split; [reflexivity|exact E3].
-Qed.
+Proof. exact num_counts_exact. Qed.
 
 Theorem C05_counts_exact_any_pages : forall (k : bytekind) (limit : Z) ps i p,
   byte_pages_ok k ps -> nth_error ps i = Some p ->
   let ci := index_byte k limit ps in
   nth_error (ci_null_counts ci) i = Some (pi_num_nulls p) /\
   nth_error (ci_null_pages ci) i = Some (pi_num_values p =? pi_num_nulls p).
-Proof.
-  intros k limit ps i p Hok H. cbv zeta. rewrite (index_byte_generic k limit ps Hok).
-  destruct (index_counts_exact bytes _ _ _ _ ps i p H) as (H1 & H2 & _). auto.
-Qed.
+Proof. exact byte_counts_any_pages. Qed.
 
 Theorem C05_level_histograms_exact : forall max_level column levels,
   length column = S max_level -> Forall (fun l => (l <= max_level)%nat) levels ->
@@ -192,11 +176,7 @@ Theorem C05_boundary_order_true : forall (k : numkind) ps,
   let ci := index_num k ps in
   (ci_order ci = 1 -> ascending_nonnull N (cmp_num k) (to_search_index ci)) /\
   (ci_order ci = 2 -> ascending_nonnull N (fun a b => cmp_num k b a) (to_search_index ci)).
-Proof.
-  intros k ps. cbv zeta. pose proof (num_boundary_order_true k ps) as H. split; intros E.
-  - exact (claim_gives_ascending_nonnull N (cmp_num k) _ H E).
-  - exact (claim_gives_descending_nonnull N (cmp_num k) _ H E).
-Qed.
+Proof. exact num_boundary_order_nonnull. Qed.
 
 (** BYTE_ARRAY, FIXED_LEN_BYTE_ARRAY and be128 indexers, with truncation *)
 Theorem C05_boundary_order_true_bytes : forall (k : bytekind) (limit : Z) ps,
@@ -204,30 +184,20 @@ Theorem C05_boundary_order_true_bytes : forall (k : bytekind) (limit : Z) ps,
   let ci := index_byte k limit ps in
   (ci_order ci = 1 -> ascending_nonnull bytes cmp_bytes (to_search_index ci)) /\
   (ci_order ci = 2 -> ascending_nonnull bytes (fun a b => cmp_bytes b a) (to_search_index ci)).
-Proof.
-  intros k limit ps Hk Hok. cbv zeta. pose proof (byte_boundary_order_true k limit ps Hk Hok) as H.
-  split; intros E.
-  - exact (claim_gives_ascending_nonnull bytes cmp_bytes _ H E).
-  - exact (claim_gives_descending_nonnull bytes cmp_bytes _ H E).
-Qed.
+Proof. exact byte_boundary_order_nonnull. Qed.
 
 (** The hypothesis [well_formed] that C06 assumes of an index claiming
     Ascending is discharged for the indexes the writer builds. *)
 Theorem C05_discharges_C06_hypothesis : forall (k : numkind) ps,
   let ci := index_num k ps in
   well_formed N (cmp_num k) (ci_order ci =? 1) (to_search_index ci).
-Proof.
-  intros k ps. cbv zeta. apply claim_discharges_search_hypothesis. apply num_boundary_order_true.
-Qed.
+Proof. exact num_discharges_search_hypothesis. Qed.
 
 Theorem C05_discharges_C06_hypothesis_bytes : forall (k : bytekind) (limit : Z) ps,
   k <> BDecimal -> byte_pages_ok k ps ->
   let ci := index_byte k limit ps in
   well_formed bytes cmp_bytes (ci_order ci =? 1) (to_search_index ci).
-Proof.
-  intros k limit ps Hk Hok. cbv zeta. apply claim_discharges_search_hypothesis.
-  apply byte_boundary_order_true; assumption.
-Qed.
+Proof. exact byte_discharges_search_hypothesis. Qed.
 
 Print Assumptions C05_boundary_order_true.
 Print Assumptions C05_boundary_order_true_bytes.
@@ -267,9 +237,7 @@ Print Assumptions C05_skip_safe_be128.
 (** INT96: sign test + three words from the most significant = signed 96-bit *)
 Theorem C05_int96_order_is_signed : forall a b,
   (a < 2 ^ 96)%N -> (b < 2 ^ 96)%N -> cmp_i96 a b = cmpZ (sintZ 96 a) (sintZ 96 b).
-Proof.
-  intros a b Ha Hb. rewrite cmp_i96_key, (i96_key_small a Ha), (i96_key_small b Hb). reflexivity.
-Qed.
+Proof. exact int96_order_is_signed. Qed.
 
 (** be128: two big-endian uint64 halves = lexicographic on the 16 bytes *)
 Theorem C05_be128_order_is_lexicographic : forall a b,
